@@ -174,7 +174,9 @@ def build():
             raise kernel.HarnessAbort('fault kind %s not applicable to act validate-exe-input' % f['kind'])
 
         def resolve(self, environment):
-            raise kernel.HarnessAbort('the faulty stdin must never be resolved: its validation fails')
+            # only reachable if the validation step was skipped or its failure ignored
+            kernel.cur().ev('exe_input_resolved_without_successful_validation')
+            raise RuntimeError('execution input used although its validation did not succeed')
 
     class SetupFault(_WithValidation, SetupPhaseInstruction):
         def main(self, environment, settings, os_services, settings_builder):
